@@ -40,6 +40,22 @@ def cases(rng, tier):
         fr = "-" if rng.random() < 0.7 else ",".join(map(str, sorted(rng.sample(range(L), rng.randint(1, 3)))))
         yield Case(["wlrun %s %d %s %s %d %s %s %d %d %s" % (s, nb, lo, hi, fc, crit, conv, rng.randint(0, 10 ** 6), 1500, fr)],
                    {"kind": "run"})
+    # tiny flat-check periods and few bins: histograms sit EXACTLY on the flatness criterion at many scheduled checks
+    for i in range(16 if tier == "quick" else 100):
+        s = gen.rand_seq(rng, "polyampholyte", rng.randint(8, 12))
+        if sum(c in "KR" for c in s) < 2 or sum(c in "DE" for c in s) < 2:
+            s = s[:-4] + "KEKE"
+        nb = rng.choice([2, 4])
+        fc = rng.choice([4, 8])
+        crit = rng.choice([Fraction(1, 2), Fraction(3, 4)])
+        yield Case(["wlrun %s %d 0 1 %d %s 1/100 %d 1500 -" % (s, nb, fc, crit, rng.randint(0, 10 ** 6))], {"kind": "tiny-flatcheck"})
+    # sub-range requests whose bin width is a decimal fraction (1/width is not exactly representable)
+    for lo, hi, nb in ((Fraction(1, 2), Fraction(4, 5), 3), (Fraction(1, 10), Fraction(2, 5), 3), (Fraction(3, 5), Fraction(9, 10), 3),
+                       (Fraction(7, 10), Fraction(1), 3), (Fraction(1, 5), Fraction(4, 5), 6), (Fraction(3, 10), Fraction(9, 10), 6),
+                       (Fraction(0), Fraction(3, 10), 3), (Fraction(2, 5), Fraction(7, 10), 3), (Fraction(1, 10), Fraction(1), 4),
+                       (Fraction(0), Fraction(1), 7), (Fraction(1, 4), Fraction(3, 4), 5)):
+        s = gen.rand_seq(rng, "polyampholyte", 10)[:6] + "KEKE"
+        yield Case(["wlrun %s %d %s %s 50 1/4 501/1000 %d 300 -" % (s, nb, lo, hi, rng.randint(0, 10 ** 6))], {"kind": "sub-range"})
 
 
 def fbits(x):
@@ -59,6 +75,14 @@ def judge(case, reals, gens, specs):
 
     def bad(msg):
         out.append(("violation", 0, msg + "  [" + case.block[0] + "]"))
+    # the constructor's grid and relevant range vs the exact model of the same arithmetic
+    tk = case.block[0].split(" ")
+    mc = core.run_driver(["wlcfg %s %s %s" % (tk[3], tk[4], tk[2])], "spec")[0].split(" ")
+    inv_width = Fraction(int(tk[2])) / (Fraction(tk[4]) - Fraction(tk[3]))
+    if inv_width.denominator == 2:
+        case.tags["near_threshold"] = True      # 1/width is exactly k + 1/2: the float quotient may fall on either side
+    elif int(mc[1]) != n or cfg["rmin"] not in [int(x) for x in mc[2:]] or cfg["rmax"] != cfg["rmin"] + cfg["ntarget"] - 1:
+        bad("grid: the machine uses %d bins with relevant range %d..%d; round(1/width) and argmin give %s" % (n, cfg["rmin"], cfg["rmax"], " ".join(mc[1:])))
     # bin centres
     for i, c in enumerate(bincts):
         if abs(c - (2 * i + 1) / (2.0 * n)) > 1e-12:
@@ -154,7 +178,7 @@ def judge(case, reals, gens, specs):
         # model replay
         lines.append("wlstep %d %d" % (st["idx_new"], fbits(ra if ra is not None else 2.0)))
     # stop rule
-    capped = len(trace) >= 1500
+    capped = len(trace) >= int(tk[9])
     still = math.exp(2.0 ** (-lnf_exp)) > cfg["convergence"]
     if not capped and still:
         bad("the loop stopped although f=%r > convergence=%r" % (math.exp(2.0 ** (-lnf_exp)), cfg["convergence"]))
